@@ -173,6 +173,12 @@ func (e *Engine) prepareSuffix() (comp string) {
 	comp = e.selected.Value
 	prefix := len(e.prefix)
 
+	// Matched ignoring case, a candidate can be shorter than
+	// the prefix: nothing of it is left past the prefix then.
+	if prefix > len(comp) {
+		prefix = len(comp)
+	}
+
 	// When the completion has a size of 1, don't remove anything:
 	// stacked flags, for example, will never be inserted otherwise.
 	if len(comp) > 0 && len(comp[prefix:]) <= 1 {
